@@ -2,12 +2,14 @@
 Driver for the `gl` protocol (C01–C05): the emitted `.v` text is loaded, then queried.
   load <hex of the .v file>      → ok <number of declarations> | parse-error <hex of message>
   names                          → names <n1,n2,…>      (defined names in order of appearance)
+  canon <name>                   → canon <fully bracketed rendering of the parsed declaration>
   uses <name>                    → uses <g1,g2,…>       (Gallina identifiers mentioned in the body, sorted, deduplicated)
   eval <fn> <arg>…               → value … | stuck <hex> | diverged
 -/
 import Driver.Util
 import GooseVerif.GL.Parse
 import GooseVerif.GL.Sem
+import GooseVerif.GL.Canon
 
 namespace Driver.GL
 open GooseVerif.GL
@@ -71,6 +73,19 @@ def step (s : St) (ws : List String) : St × String :=
       | .error e => ({ decls := [] }, "parse-error " ++ hexOrDash e.toUTF8.toList)
   | ["names"] =>
     (s, "names " ++ (let ns := s.decls.filterMap Decl.name?; if ns.isEmpty then "-" else ",".intercalate ns))
+  | ["canon", n] =>
+    match s.decls.find? (fun d => d.name? == some n) with
+    | some d => (s, "canon " ++ d.canon)
+    | none => (s, "unknown")
+  | ["usesord", n] =>
+    -- same-file or other Gallina identifiers in order of first occurrence
+    match s.decls.find? (fun d => d.name? == some n) with
+    | some d =>
+      let gs := (((declBody d).map globalsOf).getD []).eraseDups
+      (s, "usesord " ++ (if gs.isEmpty then "-" else ",".intercalate gs))
+    | none => (s, "unknown")
+  | ["others"] =>
+    (s, "others " ++ (let ks := s.decls.filterMap (fun d => match d with | .other k => some k | _ => none); if ks.isEmpty then "-" else ",".intercalate ks))
   | ["uses", n] =>
     match s.decls.find? (fun d => d.name? == some n) with
     | some d =>
